@@ -315,6 +315,10 @@ def normalize_url(
     if port == 80 or port == 443:
         port = None
 
+    # NOTE: unquoting first, so that escaped spellings ("%2E%2E", "index%2Ehtml",
+    # "%75tm_source=x") are handled like the unescaped ones below
+    path = safely_unquote_path(path)
+
     # Normalizing the path
     if path:
         trailing_slash = False
@@ -324,10 +328,6 @@ def normalize_url(
         path = normpath(path)
         if trailing_slash and not strip_trailing_slash:
             path = path + "/"
-
-    # NOTE: unquoting first, so that escaped spellings ("index%2Ehtml",
-    # "%75tm_source=x") are handled like the unescaped ones below
-    path = safely_unquote_path(path)
 
     # NOTE: unquoting can reveal uppercase letters (e.g. "%41")
     if lowercase:
